@@ -192,6 +192,12 @@ class P(flow.Plan):
         runs.append(("dw-loss", "DirectWriteImpl", cfg(3, [2], [1], ["Order", "SyncModuloF12", "ErrorsSurface", "LossSurfaces"], loss=True), None, []))
         # the code before fix F20: a write() after a drop that happened while idle never returns
         runs.append(("dw-loss-F20", "DirectWriteImpl", cfg(2, [], [], ["LossSurfaces"], loss=True, old_wait=True), None, ["AllReturn"]))
+        # the empty start-up print of connect(), with and without line numbers (a Grbl greeting switches them off); the code
+        # before fix F24 lowered `clear` although nothing was sent: connect() never returned
+        sc = "SPECIFICATION Spec\nCONSTANTS\n LineNumbers = %s\n StartAlwaysWaits = %s\nPROPERTY Returns\nCHECK_DEADLOCK FALSE\n"
+        runs.append(("startup-marlin", "StartupImpl", sc % ("TRUE", "FALSE"), None, []))
+        runs.append(("startup-grbl", "StartupImpl", sc % ("FALSE", "FALSE"), None, []))
+        runs.append(("startup-grbl-F24", "StartupImpl", sc % ("FALSE", "TRUE"), None, ["Returns"]))
         return runs
 
     def behaviours(self, tier, sd):
